@@ -528,7 +528,7 @@ func (g *Gen) loopHead(h *ssa.BasicBlock, k int, fpreds []*ssa.BasicBlock) {
 			if err != nil {
 				continue
 			}
-			g.assume(t.S)
+			g.assumeTagged(t.S, c.Props)
 		}
 		if spec.Decr != nil {
 			env := g.fnEnv(nil)
